@@ -309,7 +309,7 @@ impl Prop for C12 {
         if tier != Tier::Thorough {
             return (Vec::new(), json!({}));
         }
-        let c = crate::fuzz::campaign("movetext", "/verif/harness/fuzz/seeds/movetext", None, 1_000_000, seed, 8, 16);
+        let c = crate::fuzz::campaign("movetext", "/verif/harness/fuzz/seeds/movetext", None, 150_000, seed, 8, 16);
         let mut fails = Vec::new();
         for a in &c.artifacts {
             let case = serde_json::to_value(TextCase::Fuzz { bytes: a.clone() }).unwrap();
